@@ -298,13 +298,13 @@ def gen_serial(rng):
 def sh_argv(script, shell="/bin/sh"):
     return [shell.encode(), b"-c", script.encode() if isinstance(script, str) else script]
 
-def proc_job(argv, inherit=True, control=False, interruptible=True, reqenv=(), mark=None):
+def proc_job(argv, inherit=True, control=False, interruptible=True, reqenv=(), mark=None, starve=None):
     env = ";".join("%s=%s" % (hx(k), hx(v)) for k, v in reqenv) if reqenv else "."
-    return "%d%d%d:%s:%s" % (inherit, control, interruptible, env, ",".join(hx(a) for a in argv)) + ((":" + hx(mark.encode())) if mark else "")
+    return "%d%d%d%s:%s:%s" % (inherit, control, interruptible, "" if starve is None else str(starve), env, ",".join(hx(a) for a in argv)) + ((":" + hx(mark.encode())) if mark else "")
 
 def proc_line(lanes, cancel, base, jobs):
     b = "environ" if base is None else ("." if not base else ",".join(hx(x) for x in base))
-    return "proc %d %s %s %s" % (lanes, cancel, b, " ".join(jobs))
+    return "proc %s %s %s %s" % (lanes, cancel, b, " ".join(jobs))
 
 def parse_proc(ans):
     res, tail = [], {}
@@ -478,6 +478,53 @@ def run_children(chk, drv, model, tmp):
         return None
     for dly in (0, 50000, 300000):
         expect("cancel-then-destroy-%dms" % (dly // 1000), proc_line(2, "20000+%d" % dly, None, [proc_job(sh_argv("sleep 8"), interruptible=False), proc_job(sh_argv("trap '' INT; sleep 8"))]), chk_destroy)
+
+    # cancellation of a child that has closed its descriptors and runs on (the lane is already blocked in wait4): it must
+    # still be in the process group, i.e. be signalled; with and without destroying the queue right away; both queues
+    def chk_cancel_closed(sigs, timekey):
+        def f(rs):
+            for i, (r, sg) in enumerate(zip(rs, sigs)):
+                if sg is None:
+                    x = std(r, "Cancelled", None, b"", spawned="0")
+                else:
+                    x = std(r, "Cancelled", None, None)
+                    if not x and int(r["exit"]) & 0x7f not in sg:
+                        x = ("cancel-not-signalled", "raw status %s, expected death by signal %s" % (r["exit"], sg))
+                    if not x and r["alive"] != "0":
+                        x = ("child-not-reaped", "child %s still exists after the queue was destroyed" % r["pid"])
+                if x:
+                    return (x[0], "job %d (closed its descriptors, then cancelled while running): %s" % (i, x[1]))
+            ms = int(rs[0]["_tail"].get(timekey, "-1"))
+            if ms < 0 or ms > 4500:
+                return ("cancel-waits-for-children", "%s=%d ms: the cancelled 6 s children were not killed (SIGINT at once, SIGKILL after the 1 s grace period)" % (timekey, ms))
+            return None
+        return f
+    closed = "exec >&- 2>&-; sleep 6"
+    for q in (2, "serial"):
+        for destroy in ("", "+0"):
+            if q == 2:
+                jobs_, sigs = [proc_job(sh_argv(closed)), proc_job(sh_argv("trap '' INT; " + closed))], [(2,), (9,)]
+            else:
+                jobs_, sigs = [proc_job(sh_argv(closed)), proc_job(sh_argv("echo never"))], [(2,), None]
+            expect("cancel-closed-child-%s%s" % (q, destroy), proc_line(q, "300000" + destroy, None, jobs_), chk_cancel_closed(sigs, "destroy_ms" if destroy else "elapsed_ms"))
+    # the "spawn error" fate: pipe() fails with EMFILE exactly when the launch creates its pipes (0-1 free descriptors: the
+    # output pipe, 2-3: the control pipe); exactly one completion (Failed, with a process error), and the next launch is fine
+    def chk_starve(rs):
+        r = rs[0]
+        if r["cb"] != "1":
+            return ("completion-not-once", "launch with the descriptor table full: completion callback fired %s times" % r["cb"])
+        if r["started"] != r["finished"] or r["started"] != "1":
+            return ("process-callbacks", "launch with the descriptor table full: processStarted x%s, processFinished x%s" % (r["started"], r["finished"]))
+        if r["status"] == "Failed":
+            if r["spawned"] != "0" or r["err"] == "-":
+                return ("spawn-error-silent", "failed launch: spawned=%s, processHadError %r" % (r["spawned"], r["err"]))
+        elif r["status"] != "Succeeded":
+            return ("status-not-fate", "launch with the descriptor table full ended as %s" % r["status"])
+        x = std(rs[1], "Succeeded", 0, b"hi\n")
+        return (x[0], "the launch after the starved one: " + x[1]) if x else None
+    for q in (1, "serial"):
+        for free, ctl in ((0, True), (1, True), (2, True), (3, True), (0, False), (1, False)):
+            expect("fd-starved-%s-%d-%d" % (q, free, ctl), proc_line(q, -1, None, [proc_job(sh_argv("echo hi; exit 0"), control=ctl, starve=free), proc_job(sh_argv("echo hi; exit 0"), control=ctl)]), chk_starve)
 
     # A client's ordinary signal handler (no SA_RESTART) must not change any child's fate: SIGUSR1 is sent every 2 ms to the
     # thread executing the job, from processStarted to the completion callback.  The interesting child closes its
